@@ -356,6 +356,22 @@ func TestC18(t *testing.T) {
 			if err := s.Write(filepath.Join(dir, "no-such-dir", "out."+ext)); err == nil {
 				t.Fatalf("Write into a missing directory returned nil error (.%s)", ext)
 			}
+			// whatever the format writer reports comes back through the helper: a full device, nothing to write
+			if _, err := os.Stat("/dev/full"); err == nil {
+				full := filepath.Join(dir, "full."+ext)
+				if os.Symlink("/dev/full", full) == nil {
+					ev.CaseH(true, strHash("full"+ext), "file-on-full-device")
+					if err := s.Write(full); err == nil {
+						writeReplay("C18", "c18", c18Case{Format: ext}, "Write to a file on a full device returned nil error")
+						t.Fatalf("Write to a .%s file on a full device (every write fails with ENOSPC) returned nil error", ext)
+					}
+				}
+			}
+			ev.CaseH(true, strHash("empty"+ext), "write-helper-error-path")
+			if err := astisub.NewSubtitles().Write(filepath.Join(dir, "empty."+ext)); err == nil {
+				writeReplay("C18", "c18", c18Case{Format: ext}, "Write of an empty list returned nil error")
+				t.Fatalf("Write of an empty list to a .%s file returned nil error (the format writer reports ErrNoSubtitlesToWrite)", ext)
+			}
 			// and without fault the file is complete
 			p := filepath.Join(dir, "ok."+ext)
 			if err := s.Write(p); err != nil {
